@@ -722,3 +722,131 @@ func init() {
 			return out
 		}})
 }
+
+// ROTSIGN — a rotation index is not tested by its sign.
+//
+// Rotations are signed (`Replicate` is the inner sum with a negative batch) and are reduced by GaloisElement; only
+// "no rotation" (0) is special. An advertiser that files a rotation `if k > 0` ("drop the identity") silently drops
+// every negative rotation: the key list for Replicate misses all partial rotations (n = 7, 11, 13, …).
+//
+// Rule: in every function that stores rotations into an index set or list from which Galois elements are computed
+// (a map[int]bool / []int that reaches `GaloisElements(…)`, or direct `GaloisElement(k)` calls), no `if` condition
+// compares such a rotation variable with 0 by an ordering operator (<, <=, >, >=); tests against zero are `== 0` / `!= 0`.
+func scanRotSign(c *core.Ctx) []ob {
+	var out []ob
+	n := 0
+	c.FuncDecls(func(pk *packages.Package, file *ast.File, fd *ast.FuncDecl) {
+		if fd.Body == nil || fileIsTestSupport(c.Program, fd.Pos()) || inExamples(pk) {
+			return
+		}
+		info := pk.TypesInfo
+		// rotation variables: int locals/params used as argument of GaloisElement(…) or as key of a map[int]bool
+		// that is turned into the argument of GaloisElements(…), or appended to an []int that is
+		rot := map[types.Object]bool{}
+		usesGal := false
+		ast.Inspect(fd.Body, func(x ast.Node) bool {
+			switch v := x.(type) {
+			case *ast.CallExpr:
+				nm := calleeName(info, v)
+				if (nm == "GaloisElement") && len(v.Args) == 1 {
+					usesGal = true
+					ast.Inspect(v.Args[0], func(y ast.Node) bool {
+						if id, ok := y.(*ast.Ident); ok {
+							if o, ok := info.Uses[id].(*types.Var); ok && !o.IsField() {
+								if b, ok := o.Type().Underlying().(*types.Basic); ok && b.Kind() == types.Int {
+									rot[o] = true
+								}
+							}
+						}
+						return true
+					})
+				}
+				if nm == "GaloisElements" {
+					usesGal = true
+				}
+			}
+			return true
+		})
+		if !usesGal {
+			return
+		}
+		ast.Inspect(fd.Body, func(x ast.Node) bool {
+			as, ok := x.(*ast.AssignStmt)
+			if !ok {
+				return true
+			}
+			for _, l := range as.Lhs {
+				if ie, ok := unparen(l).(*ast.IndexExpr); ok {
+					if m, ok := info.TypeOf(ie.X).Underlying().(*types.Map); ok {
+						if b, ok := m.Key().Underlying().(*types.Basic); ok && b.Kind() == types.Int {
+							if id, ok := unparen(ie.Index).(*ast.Ident); ok {
+								if o, ok := info.Uses[id].(*types.Var); ok {
+									rot[o] = true
+								}
+							}
+						}
+					}
+				}
+			}
+			return true
+		})
+		if len(rot) == 0 {
+			return
+		}
+		fkey := core.FuncKey(pk, fd)
+		n++
+		var bad *ast.BinaryExpr
+		ast.Inspect(fd.Body, func(x ast.Node) bool {
+			is, ok := x.(*ast.IfStmt)
+			if !ok {
+				return true
+			}
+			ast.Inspect(is.Cond, func(y ast.Node) bool {
+				be, ok := y.(*ast.BinaryExpr)
+				if !ok || bad != nil {
+					return true
+				}
+				switch be.Op {
+				case token.LSS, token.LEQ, token.GTR, token.GEQ:
+				default:
+					return true
+				}
+				for _, pair := range [][2]ast.Expr{{be.X, be.Y}, {be.Y, be.X}} {
+					id, ok := unparen(pair[0]).(*ast.Ident)
+					if !ok || !rot[info.Uses[id]] {
+						continue
+					}
+					if tv, ok := info.Types[pair[1]]; ok && tv.Value != nil && tv.Value.ExactString() == "0" {
+						bad = be
+					}
+				}
+				return true
+			})
+			return true
+		})
+		key := "ROTSIGN:" + fkey
+		props := []string{"C11", "C12"}
+		if bad != nil {
+			out = append(out, withProps(violOb("ROTSIGN", key, c.Rel(bad.Pos()), fmt.Sprintf("%s tests the rotation index with `%s`: rotations are signed (a replication is an inner sum with a negative step), an ordering test against 0 drops or mistreats every negative one; only `!= 0` singles out the identity", fkey, exprString(bad))), props...))
+		} else {
+			out = append(out, withProps(okOb("ROTSIGN", key, c.Rel(fd.Pos()), "no rotation index is compared with 0 by an ordering operator", true), props...))
+		}
+	})
+	c.Stats["rotsign_fns"] = n
+	return out
+}
+
+func init() {
+	core.Register(&core.Rule{Name: "ROTSIGN", Props: []string{"C11", "C12"},
+		Doc: "in a function that turns rotation indexes into Galois elements (GaloisElement(k), or an int-keyed set handed to GaloisElements), no if condition compares such an index with 0 by <, <=, >, >=",
+		Run: func(c *core.Ctx) []ob {
+			out := scanRotSign(c)
+			for _, o := range control(c, "ROTSIGN", scanRotSign, "lvfixture.rotationsFor") {
+				out = append(out, withProps(o, "C11", "C12"))
+			}
+			for _, o := range core.Floor("ROTSIGN", nil, "functions turning rotation indexes into Galois elements", c.Stats["rotsign_fns"], 5) {
+				out = append(out, withProps(o, "C11", "C12"))
+			}
+			return out
+		}})
+}
